@@ -43,7 +43,17 @@ RULE = ("each case: 1-3 FieldIndexes over docids 0..11 (1-5 distinct values, so 
         "True/False/default), len, iter, all, islice(iter), sort (60% on the latest sort result = chains of "
         "1-3 sorts; reverse, limit in {None,1,2,n-1,n,n+1,100,0}, sort_type default or any of the six, "
         "raise_unsortable 70% True), intersect with another result set (also generator-backed sorted ones) "
-        "or a collection/generator. non-trivial = a chained sort with a tie was observed and some first() "
+        "or a collection/generator. Resolvers: the same two functions as lambda / def / bound method / "
+        "functools.partial / callable instances whose truth value is False (__bool__, __len__ == 0) / a memoising "
+        "dict subclass with __call__ (60% of the resolver-carrying result sets; quick seed 0: 1375-1459 result sets "
+        "of each kind, 2944 first() and 74 one() answers resolved by a falsy callable). Mode big (1 case in 100, "
+        "measured 80 of 8001): 300/600/1023/1024/1025/1100/1500/2048/3000 documents, first key a permutation / "
+        "reversed docid order / random, second key with 2-5 distinct values (ties), some ids value-less or unknown, "
+        "the result set a query result or a list/tuple/IF set/generator of (nearly) all ids in random order, then "
+        "chains of 2-3 sorts with limits 1..25, size/k +-1 for k in 4..64, size/2, size+-1 or none, both directions "
+        "(quick seed 0: 22 second sorts over >= 1024 ids with limit <= size/16, 13 with a larger limit, 21 over "
+        "300-1023 ids), and direct sorts of shuffled collections with sort_type stable/timsort. "
+        "non-trivial = a chained sort with a tie was observed and some first() "
         "was called on a generator-backed result set before it was iterated")
 LEVEL_TEXT = ("Lean 4 theorems for both id representations (collection / one-shot stream) and every resolver: "
               "first = head and leaves the receiver unchanged, any interleaving of first/one/len consumes "
@@ -67,6 +77,14 @@ MUTATIONS = """
   5 intersect(): the materialisation added by fix 539284e removed again (old D17: a generator-backed
     argument is consumed by the membership tests)                                                       caught
   6 all(): `resolver is None or not resolve` -> `resolver is None or resolve` (resolve flag inverted)    caught
+Size- and object-kind-dependent changes (builder wt_strong4; scratch copies /var/tmp/mut_s4_*, deleted afterwards):
+  seeded C11_E  FieldIndex.timsort_* hand over to n-best for >= 1024 ids and limit <= len/16 (chained sort loses
+                the first order among ties)                                       MISSED before mode big, now caught
+  seeded C11_F  first(): `if resolve and self.resolver` (a falsy callable resolver is skipped)
+                                                          MISSED before the resolver kinds, now caught
+  M11a sort(): the result is marked STABLE only when numids < 1000 (a third party's chained sort of a big result
+       may pick n-best / forward scan)                                                                     caught
+  M11b all(): `resolver is None` -> `not resolver`                                                         caught
 """
 
 POOL = list(range(12))
